@@ -143,50 +143,93 @@ def c15(ctx):
     return n
 
 
-def c18(ctx):
+def c18(ctx, only=None):
+    """(only: None, or the (T, L, offset, bad_at) of the one case to run -- used by replay.)
+    Item types of every fast path (casenum 0-11, the three character widths) and of the generic loop (struct,
+    pointer-to-pointer) x L on both sides of 2**8, 2**10, 2**16 x byte offsets; for the types that have
+    non-convertible contents (_Bool, wchar_t, char32_t) also with one bad element first / last (index L-1, i.e.
+    up to 65536): unpack() must raise what the element-wise read raises and must not return a partial result."""
     import cffi
     ffi = cffi.FFI()
-    n = 0
+    ffi.cdef("struct c18large { short h; char c; };")
+    n = nbad = 0
     types = ["char", "unsigned char", "short", "int", "long long", "float", "double", "_Bool", "wchar_t",
-             "char16_t", "void *", "unsigned short"]
+             "char16_t", "void *", "unsigned short",
+             # audit round: the remaining casenums (3 long, 6 unsigned int, 7 unsigned long, 0 signed char),
+             # char32_t, and two item types of the generic / pointer loop
+             "long", "unsigned int", "unsigned long", "signed char", "char32_t", "struct c18large", "int **"]
+    patterns = {}
+
+    def image(lst):
+        """A comparable image of a list result: values AND their Python types (floats bitwise, cdata by type
+        and address)."""
+        if not lst:
+            return lst
+        if isinstance(lst[0], ffi.CData):
+            # cdata of pointer / struct type compare equal when they have the same address
+            return (list(map(ffi._backend.typeof, lst)), lst)
+        if isinstance(lst[0], float):
+            return (list(map(type, lst)), struct.pack("<%dd" % len(lst), *lst))
+        return (list(map(type, lst)), lst)
+
     for T in types:
         size = ffi.sizeof(T)
+        ischar = T in ("char", "wchar_t", "char16_t", "char32_t")
         for L in (255, 256, 257, 1025, 65537):
-            for off in ((0, 1, 3) if T not in ("wchar_t", "char16_t") else (0, size)):
+            for off in ((0, 1, 3) if T not in ("wchar_t", "char16_t", "char32_t") else (0, size)):
                 # (character types: unit-aligned offsets only, so that the units stay the chosen code
                 #  points -- misaligned reads of the pattern would create surrogate pairs, whose joining
                 #  by unpack() is the known finding K18 and is covered by the main alphabet)
-                if T == "_Bool":
-                    data = bytes((i * 7 + (i >> 3)) & 1 for i in range(L * size + 8))
-                elif T in ("wchar_t",):
-                    data = b"".join(struct.pack("<I", 0x21 + (i % 0x2000)) for i in range(L + 2))
-                elif T == "char16_t":
-                    data = b"".join(struct.pack("<H", 0x21 + (i % 0xD000)) for i in range(L + 4))
-                else:
-                    data = bytes((i * 131 + 17) & 0xFF for i in range(L * size + 8))
-                ba = bytearray(data)
-                if off + L * size > len(ba):
-                    continue
-                base = ffi.from_buffer(ba)
-                p = ffi.cast(T + " *", base + off)
-                n += 1
-                try:
-                    got = ("value", ffi.unpack(p, L))
-                except Exception as e:
-                    got = ("raises", type(e).__name__)
-                try:
-                    if T in ("char", "wchar_t", "char16_t"):
-                        ref = ("value", (b"" if T == "char" else "").join(p[i] for i in range(L)))
+                if L > 65536 and off == 3:
+                    continue        # the longest length: aligned and one misaligned start only
+                for bad_at in ((None, 0, L - 1) if T in ("_Bool", "wchar_t", "char32_t") else (None,)):
+                    if only is not None and (T, L, off, bad_at) != tuple(only):
+                        continue
+                    if T == "_Bool":
+                        data = bytearray((i * 7 + (i >> 3)) & 1 for i in range(L * size + 8))
+                        if bad_at is not None:
+                            data[off + bad_at] = 2
+                    elif T in ("wchar_t", "char32_t"):
+                        units = [0x21 + (i % 0x2000) for i in range(L + 2)]
+                        if bad_at is not None:
+                            units[off // size + bad_at] = 0x110000
+                        data = bytearray(struct.pack("<%dI" % len(units), *units))
+                    elif T == "char16_t":
+                        data = bytearray(b"".join(struct.pack("<H", 0x21 + (i % 0xD000)) for i in range(L + 4)))
                     else:
-                        ref = ("value", [p[i] for i in range(L)])
-                except Exception as e:
-                    ref = ("raises", type(e).__name__)
-                ok = got == ref or (got[0] == ref[0] == "value" and T in ("float", "double") and len(got[1]) == len(ref[1])
-                                    and all((a == b) or (a != a and b != b) for a, b in zip(got[1], ref[1])))
-                if not ok:
-                    ctx.violation({"kind": "large_unpack_differs", "item": T, "family": "large"},
-                                  {"large": True, "T": T, "n": L, "offset": off})
+                        key = L * size + 8
+                        if key not in patterns:
+                            patterns[key] = bytes((i * 131 + 17) & 0xFF for i in range(key))
+                        data = bytearray(patterns[key])
+                    ba = data
+                    if off + L * size > len(ba):
+                        continue
+                    base = ffi.from_buffer(ba)
+                    p = ffi.cast(ffi.getctype(T, "*"), base + off)
+                    n += 1
+                    if bad_at is not None:
+                        nbad += 1
+                    try:
+                        r = ffi.unpack(p, L)
+                        got = ("value", r if ischar else image(r))
+                    except Exception as e:
+                        got = ("raises", type(e).__name__)
+                    try:
+                        if ischar:
+                            ref = ("value", (b"" if T == "char" else "").join(p[i] for i in range(L)))
+                        else:
+                            ref = ("value", image([p[i] for i in range(L)]))
+                    except Exception as e:
+                        ref = ("raises", type(e).__name__)
+                    if bad_at is not None and ref[0] != "raises":
+                        raise AssertionError("harness: the element-wise read of a bad %s did not raise" % T)
+                    if got != ref:
+                        sig = {"kind": "large_unpack_differs", "item": T, "family": "large"}
+                        if bad_at is not None:
+                            sig["bad_element"] = "first" if bad_at == 0 else "last"
+                        ctx.violation(sig, {"large": True, "T": T, "n": L, "offset": off, "bad_at": bad_at})
     ctx.count("large_unpack_cases", n)
+    ctx.count("large_unpack_cases_with_a_non_convertible_element", nbad)
     return n
 
 
